@@ -126,6 +126,47 @@ def op_name(op):
     return fmt_term(op)
 
 
+def normalise_split_loops(effs):
+    """`if let Some((last, init)) = xs.split_last() { for x in init { c(x, false) } c(last, keep) }` is the traversal
+    `for (i, x) in xs.iter().enumerate() { c(x, keep && i + 1 == xs.len()) }`: rewrite the effect list into that form so
+    that every client sees one loop over the whole list (the symmetric first/rest form has no flag and is left alone)."""
+    out = []
+    i = 0
+    n = len(effs)
+    while i < n:
+        e = effs[i]
+        if e["k"] == "foreach" and not e.get("taken_exit") and e["args"][0][0] == "iter" and not e["args"][0][3] and e["args"][0][2] == "fwd":
+            b = e["args"][0][1]
+            if b[0] == "app" and b[1] == "init_of":
+                whole = b[2][0]
+                # the compile of the last element: next `rec` effect (only path-condition effects may stand in between)
+                j = i + 1
+                while j < n and effs[j]["k"] in ("assume", "assume_ok", "arm"):
+                    j += 1
+                nxt = effs[j] if j < n else None
+                normal = [p for p in e.get("paths", []) if p["out"][0] in ("val", "cont")]
+                if nxt is not None and nxt["k"] == "rec" and nxt["args"][0] == ("app", "last_of", (whole,)) and len(normal) == 1:
+                    recs = [x for x in normal[0]["eff"] if x["k"] == "rec" and x["args"][0] == e["elem"]]
+                    if len(recs) == 1 and recs[0]["args"][5] == FALSE and recs[0]["args"][1:5] == nxt["args"][1:5]:
+                        k2 = nxt["args"][5]
+                        is_last = ("app", "eq", (("app", "add", (("sym", e["elem"][1], "index"), lit(1))), ("app", "len", (whole,))))
+                        keep = FALSE if k2 == FALSE else (is_last if k2 == TRUE else ("app", "and", (k2, is_last)))
+                        def fix(x):
+                            if x is recs[0]:
+                                return dict(x, args=x["args"][:5] + (keep,))
+                            return x
+                        paths = [dict(p, eff=[fix(x) for x in p["eff"]]) for p in e.get("paths", [])]
+                        out.append(dict(e, args=(("iter", whole, "fwd", ("enumerate",)),), paths=paths, merged_split=True))
+                        out.extend(effs[i + 1:j])
+                        i = j + 1
+                        continue
+        if e["k"] == "foreach" and e.get("paths"):
+            e = dict(e, paths=[dict(p, eff=normalise_split_loops(p["eff"])) for p in e["paths"]])
+        out.append(e)
+        i += 1
+    return out
+
+
 def stream(effs):
     """Flatten a path's effects to items (emit / rec / foreach / scope / other)."""
     out = []
